@@ -155,14 +155,14 @@ int fegetround(void);
             dest = NULL; \
         } else { \
             UChar *d = (UChar *) malloc((_size + 1) * sizeof(UChar)); \
-            if (d != NULL) { \
-                if (cif_buf_read(us_buf, d, (_size * sizeof(UChar))) == (_size * sizeof(UChar))) { \
-                    d[_size] = 0; \
-                    dest = d; \
-                    break; \
-                } else { \
-                    free(d); \
-                } \
+            if (d == NULL) { \
+                FAIL(onerr, CIF_MEMORY_ERROR); \
+            } else if (cif_buf_read(us_buf, d, (_size * sizeof(UChar))) == (_size * sizeof(UChar))) { \
+                d[_size] = 0; \
+                dest = d; \
+                break; \
+            } else { \
+                free(d); \
             } \
         } \
     } \
